@@ -858,3 +858,75 @@ func nodeNames(ns []*v1.Node) []string {
 	}
 	return out
 }
+
+// ---------------------------------------------------------------- C04 (provider-side half)
+
+// TestC04Direct: the provider's own refusal above the ASG maximum. IncreaseSize(d) on the real AWS
+// provider, SetDesiredCapacity and fleet mode alike: when current + d exceeds the group's maximum
+// nothing is asked of the cloud; otherwise no call carries a target above the maximum and the
+// group's desired capacity never ends above it.
+func TestC04Direct(t *testing.T) {
+	col := newCollector(t, "C04", "direct: IncreaseSize(d) on the real AWS provider (plain and fleet mode) for every relation of current + d to the ASG maximum; oracle: over the maximum => error and no AWS write; otherwise every requested target <= maximum and the desired capacity ends <= maximum; non-trivial = d on the boundary (head-1, head, head+1) or fleet mode; distinct by (mode, relation, d)")
+	rapid.Check(t, func(rt *rapid.T) {
+		rapid.SyncTest(rt, func(rt *rapid.T) {
+			col.Case()
+			fleet := rapid.Bool().Draw(rt, "fleet")
+			cfg, zones := drawFleetCfg(rt, fleet)
+			min := int64(rapid.IntRange(0, 4).Draw(rt, "min"))
+			desired := min + int64(rapid.IntRange(0, 12).Draw(rt, "gap"))
+			head := int64(rapid.SampledFrom([]int{0, 1, 2, 5, 19, 20, 21, 40}).Draw(rt, "headroom"))
+			max := desired + head
+			rel := rapid.SampledFrom([]string{"head-1", "head", "head+1", "head+2", "1", "head+100"}).Draw(rt, "d")
+			d := map[string]int64{"head-1": head - 1, "head": head, "head+1": head + 1, "head+2": head + 2, "1": 1, "head+100": head + 100}[rel]
+			if d <= 0 {
+				d = 1
+			}
+			c, err := newAWSCase(min, desired, max, cfg, zones)
+			if err != nil {
+				rt.Fatalf("harness: %v", err)
+			}
+			c.a.Fleet = sim.FleetPlan{Split: rapid.IntRange(1, 2).Draw(rt, "split"), PageSize: 50}
+			mark := c.j.Mark()
+			var ierr error
+			callTarget(rt, "C04", "IncreaseSize", func() { ierr = c.ng.IncreaseSize(d) })
+			es := c.j.Since(mark)
+			col.Eval(1)
+			desc := func() string {
+				var b strings.Builder
+				fmt.Fprintf(&b, "IncreaseSize(%d) on asg(min=%d desired=%d max=%d) fleet=%v -> err=%v\n", d, min, desired, max, fleet, ierr)
+				for _, e := range es {
+					fmt.Fprintf(&b, "  %s\n", e.String())
+				}
+				return b.String()
+			}
+			over := desired+d > max
+			var asked int64
+			for _, e := range writesOf(es) {
+				if over {
+					fail(rt, dumpPath(), "C04:provider-write-above-cloud-maximum", "current + d exceeds the group's maximum, yet the cloud is asked: %s", desc())
+				}
+				switch e.Kind {
+				case sim.ASetDesired:
+					if e.Value > max {
+						fail(rt, dumpPath(), "C04:target-above-bound", "SetDesiredCapacity(%d) above the maximum %d\n%s", e.Value, max, desc())
+					}
+				case sim.ACreateFleet:
+					asked += e.Value
+					if desired+asked > max {
+						fail(rt, dumpPath(), "C04:target-above-bound", "fleet requests add up to %d on top of %d, maximum %d\n%s", asked, desired, max, desc())
+					}
+				}
+			}
+			if over && ierr == nil {
+				fail(rt, dumpPath(), "C04:over-maximum-accepted", "%s", desc())
+			}
+			if c.asg.Desired > max {
+				fail(rt, dumpPath(), "C04:target-above-bound", "desired capacity ends at %d, maximum %d\n%s", c.asg.Desired, max, desc())
+			}
+			if fleet || strings.HasPrefix(rel, "head") {
+				col.Nontrivial(fmt.Sprintf("c04direct|fleet=%v|%s|%d", fleet, rel, d))
+				col.Sample(strings.Split(desc(), "\n"))
+			}
+		})
+	})
+}
